@@ -114,7 +114,11 @@ pub fn family(tier: Tier) -> Vec<Config> {
     let m = StepKind::Matched;
     let mut out = Vec::new();
     for nsc in 1..=3usize {
-        for (lb, la) in [(0usize, 0usize), (1, 0), (0, 1), (1, 1), (2, 1)] {
+        // (.., 100): a burst of log events emitted without an await in between
+        for (lb, la) in [(0usize, 0usize), (1, 0), (0, 1), (1, 1), (2, 1), (0, 100), (70, 0)] {
+            if lb + la >= 70 && nsc != 2 {
+                continue;
+            }
             for retry in [0usize, 1] {
                 for fault in ["none", "step", "before", "after"] {
                     if retry == 0 && fault != "none" && fault != "step" {
@@ -125,6 +129,9 @@ pub fn family(tier: Tier) -> Vec<Config> {
                         (GateMode::All, true),
                         (GateMode::Steps, false),
                     ] {
+                        if lb + la >= 70 && (gates == GateMode::All || retry > 0) {
+                            continue;
+                        }
                         if !hooks && (fault == "before" || fault == "after") {
                             continue;
                         }
